@@ -1,16 +1,33 @@
-"""entry point: python -m harness.main <property id> [quick|thorough]"""
+"""entry point: python -m harness.main <property id> [quick|thorough]
+
+Property modules live in harness/props/*.py; each defines PROPS = {pid: claim-dict} and check(pid, tier)."""
 import os
 import sys
+import glob
 import importlib
 import traceback
 
-from .common import MachineryError
+from .common import MachineryError, VERIF
 
-REGISTRY = {
-    "C10": ("harness.props.rungrid", "check"),
-    "C11": ("harness.props.rungrid", "check"),
-    "C12": ("harness.props.rungrid", "check"),
-}
+
+def discover():
+    reg = {}
+    for f in sorted(glob.glob(os.path.join(VERIF, "harness", "props", "*.py"))):
+        name = os.path.basename(f)[:-3]
+        if name.startswith("_"):
+            continue
+        with open(f) as fh:
+            src = fh.read()
+        if "PROPS" not in src:
+            continue
+        # cheap static discovery: PROPS = {"C10": ..., }
+        import re
+        m = re.search(r"^PROPS\s*=\s*\{", src, re.M)
+        if not m:
+            continue
+        for pid in re.findall(r'^\s*"(C\d\d)"\s*:', src[m.start():], re.M):
+            reg[pid] = "harness.props." + name
+    return reg
 
 
 def main():
@@ -21,13 +38,13 @@ def main():
     tier = sys.argv[2] if len(sys.argv) > 2 else os.environ.get("VERIF_TIER", "quick")
     if tier not in ("quick", "thorough"):
         tier = "quick"
-    if pid not in REGISTRY:
+    reg = discover()
+    if pid not in reg:
         print(f"no check registered for {pid}")
         return 2
-    mod, fn = REGISTRY[pid]
     try:
-        m = importlib.import_module(mod)
-        return getattr(m, fn)(pid, tier)
+        m = importlib.import_module(reg[pid])
+        return m.check(pid, tier)
     except MachineryError as ex:
         print(f"MACHINERY-ERROR property={pid}: {ex}")
         return 2
